@@ -52,7 +52,7 @@ def token_universe(tier, seed):
 
 
 HYDROGEN_TOKENS = ["[$][H]", "[H][<]", "[$]C([H])(C#N)[$]", "[$]C(C#N)([H])[$]", "[$]C([H])C[$]", "[H]C([$])C[$]", "[<]C([2H])C[>]", "[$]CC([H])([H])[$]", "[<]N([H])C(=O)[>]", "[<]C(=O)N([H])[>]"]
-REP = ["[$]CC[$]", "[<]CC([>])c1ccccc1", "[$1]C([$1|2.5|])C=O", "[>]CO[<|0.5|]", "[$]CC([$])CO", "[<|1 0 2 0|]C(=O)[>]"]
+REP = ["[$|3.|]CC[$]", "[<]CC([>])c1ccccc1", "[$1]C([$1|2.5|])C=O", "[>]CO[<|0.5|]", "[$]CC([$])CO", "[<|1 0 2 0|]C(=O)[>]"]
 END = ["[$][H]", "[<]Cl", "[$1]O", "[>|3|]N"]
 TERM = ["[]", "[$]", "[<]", "[>]", "[$1]", "[<|2|]"]
 
@@ -87,7 +87,7 @@ def higher_specs(tier, seed):
         els = []
         if p:
             els.append(R.tok(p))
-        els.append(R.sto("[>]" if p else "[]", ["[<]CC[>]", "[<|2|]CC([>])c1ccccc1"][: 1 + k % 2], [] if p else ["[>]N"], "[<]" if (s or c is not None) else "[]" if not p else "[<]", d1[1]))
+        els.append(R.sto("[>]" if p else "[]", ["[<|2.|]CC[>]", "[<|.5|]CC([>])c1ccccc1"][: 1 + (k // 2) % 2], [] if p else ["[>]N"], "[<]" if (s or c is not None) else "[]" if not p else "[<]", d1[1]))
         if c is not None:
             if c:
                 els.append(R.tok(c))
